@@ -58,5 +58,44 @@ def search(res, tier, seed, deep=False):
                 if not (err <= 1e-9):
                     report("not-rescaling-equivariant:" + name, dict(debiaser=name, a=a, seed=seed), err, "multiplicative configuration is not equivariant under pure rescaling")
 
+    # the ECDF toolkit the debiasers are built from, on exactly representable data (whole numbers, many
+    # ties) under an exactly representable shift: every input of the shifted call is the exact image of the
+    # unshifted one, so ecdf must not move and iecdf must move by exactly the shift.  (kernel_density is
+    # left out: np.histogram(bins="auto") chooses the NUMBER of bins from floating-point statistics.)
+    from ibicus.utils import ecdf, iecdf
+    rs = np.random.RandomState(r.randint(0, 10 ** 6))
+    for trial in range(300 if tier == "quick" else 3000):
+        n = int(rs.randint(3, 300))
+        x = np.round(rs.normal(288, rs.choice([1, 3, 10]), n)); y = np.round(rs.normal(288, 4, int(rs.randint(1, 50))))
+        b = float(rs.choice([-273, -100, 7, 1000])); p = rs.rand(20)
+        for m in ("step_function", "linear_interpolation"):
+            e = float(np.abs(ecdf(x + b, y + b, method=m) - ecdf(x, y, method=m)).max())
+            res.case(("toolkit-shift", "ecdf", m))
+            if e > 1e-9:
+                k = int(np.argmax(np.abs(ecdf(x + b, y + b, method=m) - ecdf(x, y, method=m))))
+                report("toolkit-shift:ecdf:" + m, dict(x=x.tolist(), y=float(y[k]), shift=b, seed=seed, trial=trial), [float(ecdf(x, y, method=m)[k]), float(ecdf(x + b, y + b, method=m)[k])],
+                       "ecdf(x + b, y + b) != ecdf(x, y) for whole-number data and a whole-number shift b")
+        for m in ("inverted_cdf", "linear", "closest_observation", "averaged_inverted_cdf", "hazen", "weibull", "median_unbiased"):
+            e = float(np.abs(iecdf(x + b, p, method=m) - (iecdf(x, p, method=m) + b)).max())
+            res.case(("toolkit-shift", "iecdf", m))
+            if e > 1e-9:
+                report("toolkit-shift:iecdf:" + m, dict(x=x.tolist(), shift=b, seed=seed, trial=trial), e, "iecdf(x + b, p) != iecdf(x, p) + b for whole-number data and a whole-number shift b")
+    # whole-degree records (many ties) through the debiasers whose transfer function is built from that
+    # toolkit, under the same exact shift
+    # (CDFt is left out: it first shifts cm_hist by mean(obs) - mean(cm_hist), and when that difference
+    # happens to be a whole number the shifted values tie with obs exactly, a genuine discontinuity)
+    for name in ("QuantileDeltaMapping", "ISIMIP"):
+        d = R.build(name, "tas", "none", r)
+        rs2 = np.random.RandomState(r.randint(0, 10 ** 6))
+        nO, nH, nF = r.randint(730, 800), r.randint(730, 800), r.randint(730, 1100)
+        obs, hist, fut = [np.round(v) for v in (R.series(rs2, nO), R.series(rs2, nH, "tas", 1.5, 1.3), R.series(rs2, nF, "tas", 3.0, 1.1))]
+        tO, tH, tF = R.times(nO, "1980-01-01"), R.times(nH, "1980-01-01"), R.times(nF, "2040-01-01")
+        base = R.run(d, obs, hist, fut, tO, tH, tF); out = R.run(d, obs - 273.0, hist - 273.0, fut - 273.0, tO, tH, tF)
+        err = float(np.max(np.abs(out - (base - 273.0))))
+        res.case(("c04-whole-degree", name))
+        if not (err <= 1e-6):
+            report("whole-degree-shift:" + name, dict(debiaser=name, window_mode="none", shift=-273.0, n=[nO, nH, nF], seed=seed), err,
+                   "whole-degree records shifted by -273 (exact in floating point) do not give the shifted output")
+
 def replay(w):
     return True, "re-run ./check C04 (inputs are regenerated from the recorded seed)"
